@@ -48,7 +48,7 @@ theorem afterParse_feq (a b : Dec) (p : Pkt) (z y : Bool) (obus : List Bytes) (h
       exact ⟨by first | trivial | rfl, h1, h2, h3, h4⟩
     · have hs' : ¬ b.fragmentsSize = 0 := by rw [← h3]; exact hs
       have hn := h4 hs
-      simp only [hs, hs', if_false, hn, h3, h2]
+      simp only [hs', if_false, hn, h3, h2]
       split
       · exact ⟨rfl, rfl, rfl, rfl, fun h => absurd rfl h⟩
       · split
